@@ -372,6 +372,7 @@ package transport
 //@   nopanic
 //@   pure
 //@ trusted context.WithCancel(ctx) (c, cancel)
+//@   ensures cancel != nil && c != nil
 //@   nopanic
 //@   pure
 //@ trusted dyn:cancel()
@@ -593,7 +594,7 @@ package transport
 //@ trusted dyn:f()
 //@ func (*sseConnection).write [C12]
 //@   safe
-//@   requires c != nil
+//@   requires c != nil && f != nil
 //@   replay sseWrites.go.tmpl
 //@   ghost held = false
 //@   at `c.mu.Lock()` ghost held = true
@@ -605,6 +606,10 @@ package transport
 //@   ensures old(c.closed) ==> calls("dyn:f") == 0 && calls(Flush) == 0
 //@   runs f with held = true
 //@ func (*sseConnection).keepAlive [C12]
+// the keep-alive goroutine only pings: closing the write gate is Do's business (payloads produced after the request
+// context ended are still delivered, then `complete`)
+//@   callsite stopKeepAlive: requires false
+//@   callsite close: requires false
 //@   stable sseConnection.keepAliveTicker
 //@   safe
 //@   requires c != nil && c.keepAliveTicker != nil
